@@ -503,5 +503,86 @@ theorem allM_eq_not_anyM_not (p : Nat → SM Bool) (fuel i : Nat) :
     congr 1; funext t
     cases t <;> simp [ih]
 
+/-! ### success and failure of `seqIdx` -/
+
+theorem seqIdx_succ_ok {β} (g : Nat → SM β) (n i : Nat) (s sk : SState) (bs : List β) :
+    seqIdx g (n + 1) i s = (.ok bs, sk) ↔
+      ∃ b s0 bs', g i s = (.ok b, s0) ∧ seqIdx g n (i + 1) s0 = (.ok bs', sk) ∧ bs = b :: bs' := by
+  simp only [seqIdx, SM.bind_apply]
+  rcases h1 : g i s with ⟨r, s0⟩
+  cases r with
+  | error e => simp
+  | ok b =>
+    simp only
+    rcases h2 : seqIdx g n (i + 1) s0 with ⟨r2, s2⟩
+    cases r2 with
+    | error e =>
+      simp only [reduceCtorEq, Prod.mk.injEq, false_and, false_iff]
+      rintro ⟨b', s0', bs', hb, hs, _⟩
+      simp only [Prod.mk.injEq, Except.ok.injEq] at hb
+      rw [← hb.2, h2] at hs; simp at hs
+    | ok bs2 =>
+      simp only [SM.pure_apply]
+      constructor
+      · intro h
+        simp only [Prod.mk.injEq, Except.ok.injEq] at h
+        exact ⟨b, s0, bs2, rfl, by rw [h2, h.2], h.1.symm⟩
+      · rintro ⟨b', s0', bs', hb, hs, rfl⟩
+        simp only [Prod.mk.injEq, Except.ok.injEq] at hb
+        rw [← hb.2, h2] at hs
+        simp only [Prod.mk.injEq, Except.ok.injEq] at hs
+        simp [hb.1, hs.1, hs.2]
+
+/-- `seqIdx` fails exactly when some `g k` fails after all earlier ones succeeded (with that error and state) -/
+theorem seqIdx_error_iff {β} (g : Nat → SM β) (fuel i : Nat) (s s' : SState) (e : ErrClass) :
+    seqIdx g fuel i s = (.error e, s') ↔
+      ∃ k, k < fuel ∧ ∃ bs sk, seqIdx g k i s = (.ok bs, sk) ∧ g (i + k) sk = (.error e, s') := by
+  induction fuel generalizing i s with
+  | zero => simp [seqIdx]
+  | succ n ih =>
+    rcases h1 : g i s with ⟨r, s0⟩
+    cases r with
+    | error e0 =>
+      constructor
+      · intro h
+        simp only [seqIdx, SM.bind_apply, h1] at h
+        exact ⟨0, by omega, [], s, by simp [seqIdx], by simpa [h1] using h⟩
+      · rintro ⟨k, hk, bs, sk, hok, herr⟩
+        cases k with
+        | zero =>
+          simp [seqIdx] at hok
+          simp only [seqIdx, SM.bind_apply, h1]
+          rw [← hok.2] at herr; simpa [h1] using herr
+        | succ k =>
+          rw [seqIdx_succ_ok] at hok
+          obtain ⟨b, s0', bs', hb, _, _⟩ := hok
+          rw [h1] at hb; simp at hb
+    | ok b =>
+      have : seqIdx g (n + 1) i s = (.error e, s') ↔ seqIdx g n (i + 1) s0 = (.error e, s') := by
+        simp only [seqIdx, SM.bind_apply, h1]
+        rcases h2 : seqIdx g n (i + 1) s0 with ⟨r2, s2⟩
+        cases r2 <;> simp
+      rw [this, ih]
+      constructor
+      · rintro ⟨k, hk, bs, sk, hok, herr⟩
+        refine ⟨k + 1, by omega, b :: bs, sk, ?_, ?_⟩
+        · rw [seqIdx_succ_ok]; exact ⟨b, s0, bs, h1, hok, rfl⟩
+        · rw [← herr]; congr 1; omega
+      · rintro ⟨k, hk, bs, sk, hok, herr⟩
+        cases k with
+        | zero =>
+          simp [seqIdx] at hok
+          rw [← hok.2, Nat.add_zero, h1] at herr; simp at herr
+        | succ k =>
+          rw [seqIdx_succ_ok] at hok
+          obtain ⟨b', s0', bs', hb, hs, _⟩ := hok
+          rw [h1] at hb; simp at hb
+          refine ⟨k, by omega, bs', sk, ?_, ?_⟩
+          · rw [hb.2]; exact hs
+          · rw [← herr]; congr 1; omega
+
+theorem lengthV_nonneg {v : Val} {n : Int} (h : lengthV v = .ok n) : 0 ≤ n := by
+  cases v <;> simp [lengthV] at h <;> omega
+
 end Spec
 end ExprModel
